@@ -174,6 +174,51 @@ example : specWalkS (.struct false [.mk "objs" .reg false false (.list true (.st
 example : specWalkS (.struct false [.mk "objs" .reg false false (.list true (.struct false [.mk "name" .reg false false (.prim "string")]))]) false
     [.key "objs", .key "name"] = .rej "array" := by decide
 
+/-- **C15 / C13: only the FIRST key of a path is ever compared with the blocked root fields** - once a key has been taken (`first =
+    false`) the list of blocked fields plays no part in the rest of the walk, whatever steps follow (keys, element functions, filters
+    on an element key): a field below the root that happens to be named like a blocked step is a field like any other -/
+theorem blocked_only_first_key (root : CTy) (b1 b2 : List String) : ∀ (ss : List Step) (p : List String) (cur : Option (String × String)),
+    validateSteps root b1 ss p cur false = validateSteps root b2 ss p cur false := by
+  intro ss
+  induction ss with
+  | nil => intro p cur; unfold validateSteps; rfl
+  | cons s ss ih =>
+    intro p cur
+    cases s with
+    | elem =>
+      unfold validateSteps
+      split
+      · exact ih _ _
+      · rfl
+    | cond k =>
+      unfold validateSteps
+      split
+      · split
+        · rfl
+        · split
+          · rfl
+          · exact ih _ _
+      · rfl
+    | key k =>
+      unfold validateSteps
+      simp only [Bool.false_and, Bool.false_eq_true, if_false]
+      split
+      · rfl
+      · split
+        · rfl
+        · split
+          · rfl
+          · exact ih _ _
+
+/-- … and the first key is rejected exactly when it is blocked (given that it is a key of the root at all) -/
+theorem first_key_blocked (root : CTy) (b : List String) (k : String) (ss : List Step) (h : b.contains k = true) :
+    validateSteps root b (.key k :: ss) [] none true = .rej "blocked" := by
+  unfold validateSteps
+  have hm : k ∈ b := by simpa using h
+  simp [hm]
+
+#print axioms blocked_only_first_key
+#print axioms first_key_blocked
 #print axioms validate_walk_steps
 #print axioms validateSteps_keys
 #print axioms specWalkS_keys
